@@ -338,3 +338,38 @@ func VF_C07_AnyNumeric(types, _ int) {
 	vf.BudgetReset()
 	vf.Reach("end")
 }
+
+// VF_C07_ComplexExtremes: complex numbers whose parts are finite but far from 1 (1e200, 5e-324, ...):
+// the order is by magnitude then phase, so two values of clearly different magnitude never rank Equal,
+// whatever intermediate computation (squares!) would overflow or underflow.
+func VF_C07_ComplexExtremes(sel, _ int) {
+	parts := []float64{0, 1, -1, 1e200, 2e200, -2e200, 1e-200, 5e-324, 3e-320}
+	pick := func(s int) complex128 { return complex(parts[s%9], parts[s/9%9]) }
+	a, b := pick(sel%81), pick(sel/81%81)
+	k := age.Collator[complex128]().Make()
+	rab, rba := k.RankValues(a, b), k.RankValues(b, a)
+	vf.Assert("mirror", vf.And((rab == lt) == (rba == gt), (rab == eq) == (rba == eq)))
+	// magnitude as the larger absolute part, up to a factor of sqrt 2: a factor of ten apart is decisive
+	big := func(z complex128) float64 {
+		re, im := real(z), imag(z)
+		if re < 0 {
+			re = -re
+		}
+		if im < 0 {
+			im = -im
+		}
+		if re > im {
+			return re
+		}
+		return im
+	}
+	ma, mb := big(a), big(b)
+	if ma*10 < mb && ma < 1e300 {
+		vf.Assert("clearly-smaller-magnitude-ranks-lesser", rab == lt)
+	}
+	if mb*10 < ma && mb < 1e300 {
+		vf.Assert("clearly-larger-magnitude-ranks-greater", rab == gt)
+	}
+	vf.Assert("compare-iff-rank-equal", k.CompareValues(a, b) == (rab == eq))
+	vf.Reach("end")
+}
